@@ -348,6 +348,10 @@ def connect_twice(sx):
                 sx.check(cm == f"geckolib.driver.packs.{plat}-cfg-{c}" and lm == f"geckolib.driver.packs.{plat}-log-{l}",
                          "mod.connection-loads-the-reported-platforms-tables", lambda: f"{plat}: {cm} / {lm}")
                 sx.check(spa.pack_class.name == name, "mod.connection-loads-the-reported-pack")
+                # every item the two tables publish is there to be read after the connection
+                want = set(decl[f"{plat}-cfg-{c}"]["GeckoConfigStruct"]["items"]) | set(decl[f"{plat}-log-{l}"]["GeckoLogStruct"]["items"])
+                sx.check(set(spa.struct.accessors) == want, "mod.connection-exposes-every-published-item",
+                         lambda: f"{plat}: {len(spa.struct.accessors)} of {len(want)} items")
     finally:
         GeckoConfig.PROTOCOL_TIMEOUT_IN_SECONDS = saved
 
